@@ -1,7 +1,426 @@
 package main
 
+// Determinism exploration through the public API: the same project built
+// repeatedly in-process under GOMAXPROCS 1/2/16, with a plugin whose
+// OnResolve/OnLoad callbacks sleep for seeded durations (permutes the order in
+// which files arrive, hence the arrival-order source indices), concurrently
+// with sibling builds of other projects, and from a copy at another absolute
+// path.  Everything api.Build returns must be byte-identical.
+
 import (
+	"encoding/json"
+	"fmt"
+	"hash/fnv"
+	"os"
+	"path/filepath"
+	"runtime"
+	"strings"
+	"sync"
+	"time"
+
+	"github.com/evanw/esbuild/pkg/api"
 	. "github.com/evanw/esbuild/verifharness/hlib"
 )
 
-func runGlue(r *Rng, st *Stats, n int, tier string) {}
+type variant struct {
+	Name      string `json:"name"`
+	Bundle    bool   `json:"bundle"`
+	Splitting bool   `json:"splitting"`
+	Minify    bool   `json:"minify"`
+	MinifyIDs bool   `json:"minify_identifiers"`
+	Mangle    bool   `json:"mangle_props"`
+	Metafile  bool   `json:"metafile"`
+	Sourcemap string `json:"sourcemap"`
+	Format    string `json:"format"`
+	Hashes    bool   `json:"hashed_names"`
+	Legal     string `json:"legal_comments"`
+}
+
+var variants = []variant{
+	{Name: "split-esm-meta-map", Bundle: true, Splitting: true, Metafile: true, Sourcemap: "linked", Format: "esm", Hashes: true},
+	{Name: "split-esm-minify-mangle", Bundle: true, Splitting: true, Minify: true, Mangle: true, Metafile: true, Format: "esm", Hashes: true},
+	{Name: "multi-entry-cjs-mangle", Bundle: true, MinifyIDs: true, Mangle: true, Metafile: true, Sourcemap: "external", Format: "cjs"},
+	{Name: "multi-entry-iife-minify", Bundle: true, Minify: true, Mangle: true, Sourcemap: "inline", Format: "iife", Hashes: true},
+	{Name: "multi-entry-esm-plain", Bundle: true, Metafile: true, Format: "esm", Legal: "linked"},
+	{Name: "no-bundle-mangle", Minify: true, Mangle: true, Metafile: true, Format: "esm"},
+}
+
+type schedule struct {
+	Procs    int    `json:"gomaxprocs"`
+	Seed     uint64 `json:"delay_seed"` // 0 = no delays
+	MaxUs    int    `json:"max_delay_us"`
+	Location string `json:"location"` // "A" or "B" (copy at another absolute path)
+	Siblings int    `json:"concurrent_builds"`
+}
+
+func delayFor(s schedule, what, path string) time.Duration {
+	if s.Seed == 0 || s.MaxUs == 0 {
+		return 0
+	}
+	h := fnv.New64a()
+	fmt.Fprintf(h, "%d|%s|%s", s.Seed, what, path)
+	v := h.Sum64()
+	v ^= v >> 29
+	v *= 0xBF58476D1CE4E5B9
+	v ^= v >> 32
+	if v%100 < 45 {
+		return 0
+	}
+	return time.Duration((v>>8)%uint64(s.MaxUs)) * time.Microsecond
+}
+
+func relTo(root, p string) string {
+	if rel, err := filepath.Rel(root, p); err == nil {
+		return filepath.ToSlash(rel)
+	}
+	return p
+}
+
+func buildOptions(root string, p *project, v variant, s schedule) api.BuildOptions {
+	o := api.BuildOptions{
+		AbsWorkingDir: root,
+		Outdir:        "out",
+		Outbase:       "src",
+		Bundle:        v.Bundle,
+		Splitting:     v.Splitting,
+		Metafile:      v.Metafile,
+		Write:         false,
+		LogLevel:      api.LogLevelSilent,
+		LogLimit:      0,
+		Loader: map[string]api.Loader{".png": api.LoaderFile, ".txt": api.LoaderText, ".svg": api.LoaderDataURL},
+	}
+	for _, e := range p.Entries {
+		o.EntryPoints = append(o.EntryPoints, e)
+	}
+	if !v.Bundle {
+		// without bundling only the script entry points make sense
+		o.EntryPoints = nil
+		for _, e := range p.sortedPaths() {
+			if strings.HasSuffix(e, ".js") || strings.HasSuffix(e, ".ts") || (strings.HasSuffix(e, ".css") && !strings.HasSuffix(e, ".module.css")) {
+				o.EntryPoints = append(o.EntryPoints, e)
+			}
+		}
+	}
+	switch v.Format {
+	case "esm":
+		o.Format = api.FormatESModule
+	case "cjs":
+		o.Format = api.FormatCommonJS
+	case "iife":
+		o.Format = api.FormatIIFE
+	}
+	switch v.Sourcemap {
+	case "linked":
+		o.Sourcemap = api.SourceMapLinked
+	case "external":
+		o.Sourcemap = api.SourceMapExternal
+	case "inline":
+		o.Sourcemap = api.SourceMapInline
+	}
+	if v.Legal == "linked" {
+		o.LegalComments = api.LegalCommentsLinked
+	}
+	if v.Minify {
+		o.MinifyWhitespace, o.MinifyIdentifiers, o.MinifySyntax = true, true, true
+	}
+	if v.MinifyIDs {
+		o.MinifyIdentifiers = true
+	}
+	if v.Mangle {
+		o.MangleProps = "_$"
+		o.MangleCache = map[string]interface{}{"_keep_": false, "_foo_": "zz", "_unused_": "q"}
+	}
+	if v.Hashes {
+		o.EntryNames = "[dir]/[name]-[hash]"
+		o.ChunkNames = "chunks/[name]-[hash]"
+		o.AssetNames = "assets/[name]-[hash]"
+	}
+	o.Plugins = []api.Plugin{{Name: "delay", Setup: func(b api.PluginBuild) {
+		b.OnResolve(api.OnResolveOptions{Filter: ".*"}, func(a api.OnResolveArgs) (api.OnResolveResult, error) {
+			if d := delayFor(s, "resolve", a.Path+"<"+relTo(root, a.Importer)); d > 0 {
+				time.Sleep(d)
+			}
+			return api.OnResolveResult{}, nil
+		})
+		b.OnLoad(api.OnLoadOptions{Filter: ".*"}, func(a api.OnLoadArgs) (api.OnLoadResult, error) {
+			if d := delayFor(s, "load", relTo(root, a.Path)); d > 0 {
+				time.Sleep(d)
+			}
+			return api.OnLoadResult{}, nil
+		})
+	}}}
+	return o
+}
+
+func fmtLoc(l *api.Location) string {
+	if l == nil {
+		return "-"
+	}
+	return fmt.Sprintf("%s|%s|%d:%d+%d|%q|%q", l.File, l.Namespace, l.Line, l.Column, l.Length, l.LineText, l.Suggestion)
+}
+
+func fmtMsgs(sb *strings.Builder, title string, msgs []api.Message) {
+	fmt.Fprintf(sb, "== %s (%d)\n", title, len(msgs))
+	for _, m := range msgs {
+		fmt.Fprintf(sb, "[%s] plugin=%q %q @ %s\n", m.ID, m.PluginName, m.Text, fmtLoc(m.Location))
+		for _, n := range m.Notes {
+			fmt.Fprintf(sb, "    note %q @ %s\n", n.Text, fmtLoc(n.Location))
+		}
+	}
+}
+
+// canonical text of everything a build returns (order preserved)
+func canonical(res api.BuildResult) string {
+	var sb strings.Builder
+	fmtMsgs(&sb, "errors", res.Errors)
+	fmtMsgs(&sb, "warnings", res.Warnings)
+	fmt.Fprintf(&sb, "== outputs (%d)\n", len(res.OutputFiles))
+	for _, f := range res.OutputFiles {
+		fmt.Fprintf(&sb, "-- file %s hash=%s bytes=%d\n", f.Path, f.Hash, len(f.Contents))
+	}
+	fmt.Fprintf(&sb, "== metafile\n%s\n", strings.ReplaceAll(res.Metafile, "},", "},\n"))
+	mc, _ := json.Marshal(res.MangleCache)
+	fmt.Fprintf(&sb, "== mangle cache\n%s\n", mc)
+	for _, f := range res.OutputFiles {
+		fmt.Fprintf(&sb, "== contents of %s\n%s\n", f.Path, f.Contents)
+	}
+	return sb.String()
+}
+
+func firstDiff(a, b string) (string, string, string) {
+	la, lb := strings.Split(a, "\n"), strings.Split(b, "\n")
+	section := ""
+	for i := 0; i < len(la) || i < len(lb); i++ {
+		var x, y string
+		if i < len(la) {
+			x = la[i]
+		} else {
+			x = "<end>"
+		}
+		if i < len(lb) {
+			y = lb[i]
+		} else {
+			y = "<end>"
+		}
+		if strings.HasPrefix(x, "== ") {
+			section = x
+		}
+		if x != y {
+			ctx := func(l []string) string {
+				lo, hi := i-1, i+3
+				if lo < 0 {
+					lo = 0
+				}
+				if hi > len(l) {
+					hi = len(l)
+				}
+				if lo > hi {
+					lo = hi
+				}
+				t := strings.Join(l[lo:hi], "\n")
+				if len(t) > 1200 {
+					t = t[:1200] + "..."
+				}
+				return t
+			}
+			return section, ctx(la), ctx(lb)
+		}
+	}
+	return "", "", ""
+}
+
+type job struct {
+	proj    int
+	variant int
+	sched   schedule
+	out     string
+}
+
+func writeProject(root string, p *project) {
+	for rel, content := range p.Files {
+		full := filepath.Join(root, filepath.FromSlash(rel))
+		if err := os.MkdirAll(filepath.Dir(full), 0o755); err != nil {
+			panic(err)
+		}
+		if err := os.WriteFile(full, []byte(content), 0o644); err != nil {
+			panic(err)
+		}
+	}
+}
+
+func runGlue(r *Rng, st *Stats, n int, tier string) {
+	tmp, err := os.MkdirTemp("", "verif-c08-")
+	if err != nil {
+		panic(err)
+	}
+	defer os.RemoveAll(tmp)
+	prevProcs := runtime.GOMAXPROCS(0)
+	defer runtime.GOMAXPROCS(prevProcs)
+
+	runOptionScenarios(st, tmp, 40)
+
+	nProj := n / 60
+	if nProj < 6 {
+		nProj = 6
+	}
+	reps := 24
+	if tier == "thorough" {
+		reps = 40
+	}
+	var projects []*project
+	for i := 0; i < nProj; i++ {
+		switch {
+		case i%6 == 4:
+			projects = append(projects, genProject(r, true))
+		default:
+			projects = append(projects, genProject(r, false))
+		}
+	}
+	projects = append(projects, scenarioMissingEntries(r))
+	rootsA := make([]string, len(projects))
+	rootsB := make([]string, len(projects))
+	for i, p := range projects {
+		rootsA[i] = filepath.Join(tmp, fmt.Sprintf("p%d", i), "proj")
+		rootsB[i] = filepath.Join(tmp, fmt.Sprintf("elsewhere/deeper/copy-of-p%d", i), "nested", "proj")
+		writeProject(rootsA[i], p)
+		writeProject(rootsB[i], p)
+	}
+	// two variants per project
+	projVariants := make([][]int, len(projects))
+	for i := range projects {
+		a := r.Intn(len(variants))
+		b := (a + 1 + r.Intn(len(variants)-1)) % len(variants)
+		projVariants[i] = []int{a, b}
+	}
+
+	run := func(j *job) {
+		root := rootsA[j.proj]
+		if j.sched.Location == "B" {
+			root = rootsB[j.proj]
+		}
+		res := api.Build(buildOptions(root, projects[j.proj], variants[j.variant], j.sched))
+		out := canonical(res)
+		// absolute paths are normalised (only the project root itself)
+		j.out = strings.ReplaceAll(out, root, "<ROOT>")
+	}
+	runPool := func(jobs []*job, procs, width int) {
+		runtime.GOMAXPROCS(procs)
+		ch := make(chan *job)
+		var wg sync.WaitGroup
+		for w := 0; w < width; w++ {
+			wg.Add(1)
+			go func() {
+				defer wg.Done()
+				for j := range ch {
+					run(j)
+				}
+			}()
+		}
+		for _, j := range jobs {
+			ch <- j
+		}
+		close(ch)
+		wg.Wait()
+	}
+
+	// reference builds: no delays, 16 procs, one at a time
+	refs := map[[2]int]*job{}
+	var refJobs []*job
+	for i := range projects {
+		for _, v := range projVariants[i] {
+			j := &job{proj: i, variant: v, sched: schedule{Procs: 16, Location: "A", Siblings: 1}}
+			refs[[2]int{i, v}] = j
+			refJobs = append(refJobs, j)
+		}
+	}
+	runPool(refJobs, 16, 1)
+	if dump := os.Getenv("VERIF_C08_DUMP"); dump != "" {
+		os.MkdirAll(dump, 0o755)
+		for _, j := range refJobs {
+			os.WriteFile(filepath.Join(dump, fmt.Sprintf("p%d-%s.txt", j.proj, variants[j.variant].Name)), []byte(j.out), 0o644)
+		}
+		for i, p := range projects {
+			writeProject(filepath.Join(dump, fmt.Sprintf("p%d", i)), p)
+		}
+	}
+
+	// explored schedules, grouped by GOMAXPROCS phase
+	phases := map[int][]*job{}
+	procsCycle := []int{1, 2, 16}
+	for i := range projects {
+		for _, v := range projVariants[i] {
+			for k := 0; k < reps; k++ {
+				s := schedule{Procs: procsCycle[k%3], Seed: r.U64() | 1, MaxUs: []int{300, 1500, 4000}[r.Intn(3)], Location: "A", Siblings: 4}
+				if k%8 == 7 {
+					s.Location = "B"
+				}
+				if k%6 == 5 {
+					s.Seed = 0 // plain repetition: map iteration and scheduler only
+				}
+				phases[s.Procs] = append(phases[s.Procs], &job{proj: i, variant: v, sched: s})
+			}
+		}
+	}
+	reported := map[string]bool{}
+	for _, procs := range procsCycle {
+		jobs := phases[procs]
+		// shuffle so that sibling builds of different projects overlap
+		for i := len(jobs) - 1; i > 0; i-- {
+			k := r.Intn(i + 1)
+			jobs[i], jobs[k] = jobs[k], jobs[i]
+		}
+		runPool(jobs, procs, 4)
+		for _, j := range jobs {
+			ref := refs[[2]int{j.proj, j.variant}]
+			p, v := projects[j.proj], variants[j.variant]
+			key := fmt.Sprintf("p%d/%s/%d/%d/%s", j.proj, v.Name, j.sched.Procs, j.sched.Seed, j.sched.Location)
+			st.Note("build/"+p.Kind+"/"+v.Name, key, true)
+			if j.out == ref.out {
+				continue
+			}
+			// confirm by rebuilding the reference configuration (rules out a one-off)
+			again := &job{proj: j.proj, variant: j.variant, sched: j.sched}
+			run(again)
+			section, want, got := firstDiff(ref.out, j.out)
+			what := "nondeterministic-build"
+			if j.sched.Location == "B" && again.out == j.out {
+				// could be a pure location dependence: compare with a plain build at B
+				plainB := &job{proj: j.proj, variant: j.variant, sched: schedule{Procs: 16, Location: "B", Siblings: 1}}
+				run(plainB)
+				if plainB.out != ref.out {
+					what = "build-depends-on-absolute-location"
+				}
+			}
+			rk := fmt.Sprintf("%s|%d|%s|%s", what, j.proj, v.Name, section)
+			if reported[rk] {
+				st.Histogram["FAIL-repeat:"+what]++
+				continue
+			}
+			reported[rk] = true
+			st.Fail(what, map[string]interface{}{
+				"scenario": p.Kind, "project": p, "options": v, "schedule_reference": ref.sched, "schedule_other": j.sched,
+				"differs_in": section, "same_schedule_rebuilt_equals_other": again.out == j.out,
+			}, got, want)
+		}
+	}
+	st.Sample(map[string]interface{}{"projects": len(projects), "reps_per_project_variant": reps, "files_in_first_project": len(projects[0].Files),
+		"entries_first": projects[0].Entries, "variants_first": []string{variants[projVariants[0][0]].Name, variants[projVariants[0][1]].Name},
+		"reference_output_bytes_first": len(refs[[2]int{0, projVariants[0][0]}].out)})
+	// non-vacuity of the generator: record what the reference builds contained
+	for i := range projects {
+		for _, v := range projVariants[i] {
+			out := refs[[2]int{i, v}].out
+			st.Histogram["ref:errors>0"] += b2i(!strings.Contains(out, "== errors (0)"))
+			st.Histogram["ref:warnings>0"] += b2i(!strings.Contains(out, "== warnings (0)"))
+			st.Histogram["ref:outputs>0"] += b2i(!strings.Contains(out, "== outputs (0)"))
+			st.Histogram["ref:chunks"] += b2i(strings.Contains(out, "/chunks/") || strings.Contains(out, "chunk-"))
+		}
+	}
+}
+
+func b2i(b bool) int {
+	if b {
+		return 1
+	}
+	return 0
+}
